@@ -453,7 +453,16 @@ func runC10(t *testing.T, seed int64, n int, out *Out) {
 			}
 			// an owner re-opens (consolidates into) one of their positions, preferably one that is close to or below the safety
 			// factor: extra leverage, or a pure collateral top-up (leverage 0 / 1) from dust to large; judged for open_healthy
-			if gapTarget != nil || r.Intn(3) == 0 {
+			// a leveraged-LP position that is at or below the safety factor and has not been swept (slow or switched-off sweep): its owner's
+			// top-up is the case the open-time health test exists for — taken whenever it arises
+			var unswept *c10Pos
+			for i := range pred {
+				q := pred[i]
+				if q.Module == "lp" && q.PredErr == "" && q.Health.IsPositive() && q.Health.LTE(lpSafety()) {
+					unswept = &pred[i]
+				}
+			}
+			if gapTarget != nil || unswept != nil || r.Intn(3) == 0 {
 				c := pred[r.Intn(len(pred))]
 				for _, q := range pred {
 					sfq := lpSafety()
@@ -466,6 +475,8 @@ func runC10(t *testing.T, seed int64, n int, out *Out) {
 				}
 				if gapTarget != nil {
 					c = *gapTarget
+				} else if unswept != nil && r.Intn(4) != 0 {
+					c = *unswept
 				}
 				owner := w.byAddr[c.Owner]
 				amt := []math.Int{math.NewInt(int64(1 + r.Intn(20_000))), h.amt(100_000, 50_000_000), h.amt(50_000_000, 3_000_000_000)}[r.Intn(3)]
